@@ -456,6 +456,19 @@ class Unit:
                 self.log["R6 body of %s checked textually: %s" % (mm.group(3), mm.group(4))] = 1
                 i += 1
                 continue
+            if s.startswith("//@expectconst"):
+                mm = re.match(r"//@expectconst\s+(\S+)\s*::\s*(\w+)\s*::\s*(.*)$", s)
+                f = self.rf(mm.group(1))
+                it = f.find_const(mm.group(2))
+                if it is None:
+                    raise ExtractError("anchor lost: const %s" % mm.group(2))
+                txt = strip_comments(f.src[it.start:it.end])
+                m2 = re.search(r"=\s*(.*?)\s*;\s*$", txt, re.S)
+                if not m2 or norm(m2.group(1)) != norm(mm.group(3)):
+                    raise ExtractError("anchor lost: const %s is no longer `%s`" % (mm.group(2), mm.group(3)))
+                self.log["R9 const %s checked textually" % mm.group(2)] = 1
+                i += 1
+                continue
             if s.startswith("//@const"):
                 self.do_const(s[len("//@const"):].strip(), org)
                 i += 1
